@@ -3,8 +3,10 @@ package main
 import (
 	"fmt"
 	"math/rand"
+	"runtime"
 	"strings"
 	"sync"
+	"sync/atomic"
 	"time"
 
 	"github.com/Fantom-foundation/lachesis-base/gossip/dagordering"
@@ -353,4 +355,93 @@ func ebMid() {
 	h = append(h, reads...)
 	do(0, "Total")
 	report(h, c.Model(), "buffer", c.dagToken())
+}
+
+// EBTORN: every buffered event has the SAME size s, so every state the buffer's cache ever holds satisfies
+// Size == Num*s — including the states in the middle of a PushEvent that the (recorded) unlocked Total() may see,
+// because Total() takes the (weight, count) pair in ONE critical section of the cache.  Writers push incomplete
+// events (their parent never arrives) and Clear; readers call Total() all the time and check the relation.  A
+// Total() that assembles the pair from two separately locked reads returns pairs the cache never held.
+func ebTorn(seed int64) {
+	runtime.GOMAXPROCS(2 + int(seed%7))
+	const writers, perWriter, readers, rounds = 3, 24, 3, 60
+	var ghost [24]byte
+	ghost[0] = 0xee
+	gm := &dag.MutableBaseEvent{}
+	gm.SetEpoch(1)
+	gm.SetID(ghost)
+	ghostID := gm.ID() // a parent that is never connected
+	evs := make([]dag.Event, writers*perWriter)
+	for i := range evs {
+		var raw [24]byte
+		raw[0], raw[1] = byte(i+1), byte((i+1)>>8)
+		me := &dag.MutableBaseEvent{}
+		me.SetEpoch(1)
+		me.SetLamport(idx.Lamport(i + 2))
+		me.SetParents(hash.Events{ghostID})
+		me.SetID(raw)
+		evs[i] = &me.BaseEvent
+	}
+	s := uint64(evs[0].Size())
+	buf := dagordering.New(dag.Metric{Num: 1000, Size: 1 << 30}, dagordering.Callback{
+		Process:  func(e dag.Event) error { return nil },
+		Released: func(e dag.Event, peer string, err error) {},
+		Get:      func(id hash.Event) dag.Event { return nil },
+		Exists:   func(id hash.Event) bool { return false },
+	})
+	var stop int32
+	var pushes, clears, reads int64
+	type torn struct {
+		reader   int
+		num      uint64
+		size     uint64
+		nth      int64
+		pushes   int64
+		clearsAt int64
+	}
+	var mu sync.Mutex
+	var first *torn
+	var wg, rg sync.WaitGroup
+	for r := 0; r < readers; r++ {
+		rg.Add(1)
+		go func(r int) {
+			defer rg.Done()
+			for atomic.LoadInt32(&stop) == 0 {
+				m := buf.Total()
+				n := atomic.AddInt64(&reads, 1)
+				if m.Size != uint64(m.Num)*s {
+					mu.Lock()
+					if first == nil {
+						first = &torn{r, uint64(m.Num), m.Size, n, atomic.LoadInt64(&pushes), atomic.LoadInt64(&clears)}
+					}
+					mu.Unlock()
+				}
+			}
+		}(r)
+	}
+	for w := 0; w < writers; w++ {
+		wg.Add(1)
+		go func(w int) {
+			defer wg.Done()
+			for round := 0; round < rounds; round++ {
+				for i := 0; i < perWriter; i++ {
+					buf.PushEvent(evs[w*perWriter+i], "peer")
+					atomic.AddInt64(&pushes, 1)
+				}
+				if w == 0 || round%3 == 0 {
+					buf.Clear()
+					atomic.AddInt64(&clears, 1)
+				}
+			}
+		}(w)
+	}
+	wg.Wait()
+	atomic.StoreInt32(&stop, 1)
+	rg.Wait()
+	if first != nil {
+		fmt.Printf("torn=1 pair=%d,%d eventsize=%d reader=%d read#=%d pushes_so_far=%d clears_so_far=%d reads=%d pushes=%d clears=%d\n",
+			first.num, first.size, s, first.reader, first.nth, first.pushes, first.clearsAt, reads, pushes, clears)
+		return
+	}
+	fmt.Printf("torn=0 eventsize=%d reads=%d pushes=%d clears=%d\n", s, reads, pushes, clears)
 }
